@@ -10,7 +10,7 @@ MISSING = '__missing__'
 
 JSONRPC_ALPHA = [MISSING, '2.0', '1.0', 2.0, 2, None, True, [], {}, '2.00', ' 2.0']
 ID_ALPHA = [MISSING, None, 0, 1, -1, 2 ** 63, 10 ** 30, 1.0, 1.5, '', 'a', '1', True, False, [], {}, 'é\u0000\U0001F600']
-METHOD_ALPHA = [MISSING, 'ok', 'noargs', 'echo', 'kwonly', 'rpcerr', 'typed', 'boom', 'ctxm', 'view.vm',
+METHOD_ALPHA = [MISSING, 'fac1', 'fac2', 'ok', 'noargs', 'echo', 'kwonly', 'rpcerr', 'typed', 'boom', 'ctxm', 'view.vm',
                 'view._hidden', 'view', 'nope', '', 1, None, True, [], {}]
 PARAMS_ALPHA = [MISSING, [], {}, [1], [1, 2], {'a': 1}, {'a': 1, 'b': 2}, {'z': 0}, None, 1, 's', True,
                 [[1, [2, {'x': None}]]], {'v': {'k': [1.5, 'é', False]}}, [1, 2, 3], {'ctx': 'evil', 'a': 1}]
@@ -96,6 +96,14 @@ def typed_calls(rng: random.Random, full: bool) -> Iterator[Tuple[str, str, List
     for p in ([], [1, 2, 3], {'b': 2}, {'a': 1, 'c': 3}, {'a': 1, 'b': 2, 'c': 3}, [1, 2, 3, 4]):
         yield 'unbound', 'ok', p
         yield 'unbound', 'view.vm', p
+    for p in ([1], {'x': 1}):
+        yield 'factory', 'fac1', p
+    for p in ([1], [1, 2], {'x': 1, 'y': 2}, {'x': 1, 'z': 3}, {'x': 1, 'y': 2, 'z': 3}):
+        yield 'factory', 'fac2', p
+    for p in ([1, 2], {'x': 1, 'y': 2}, [], {'x': 1, 'z': 3}):
+        yield 'unbound', 'fac1', p
+    for p in ([1, 2, 3], {'y': 2}, {'x': 1, 'w': 0}):
+        yield 'unbound', 'fac2', p
     for p in ([], {}):
         yield 'noargs', 'noargs', p
     for p in ([1], {'x': 1}):
